@@ -478,7 +478,8 @@ func effectClasses(p *Prog, fn *ssa.Function) map[string]bool {
 				out[k] = true
 			}
 			for _, h := range un {
-				if !seen[h] && !p.notifiers()[h] {
+				// helpers that also notify are skipped, except the unexported body of an exported shell (RemoveEntity → removeEntity)
+				if !seen[h] && (!p.notifiers()[h] || (d == 0 && g == fn && !h.Object().Exported() && strings.EqualFold(h.Name(), fn.Name()))) {
 					seen[h] = true
 					next = append(next, h)
 				}
